@@ -391,6 +391,9 @@ def long_c09_cases(seed, tier):
 def corpus_cases(pid, sub=''):
     out = []
     for p in sorted(glob.glob(os.path.join(CORPUS, sub, '*.txt'))):
+        # `only-<pid>-*.txt`: expensive cases that run for that property only
+        b = os.path.basename(p)
+        if b.startswith('only-') and not b.startswith('only-%s-' % pid): continue
         lines = [l.rstrip('\n') for l in open(p) if not l.startswith('#')]
         out += pipeline.split_cases(lines)
     return out
